@@ -259,4 +259,17 @@ example : Graph.Same swap01 gA gB where
 
 example : genpaths id gB (swap01 1) = (genpaths id gA 1).map (Entry.rename swap01) := by decide
 
+/-! ### non-vacuity of the named hypothesis `OKany` (audit round 8, item 6): a dict key that needs escaping (`a/b`) and a sub-configuration
+    shared between the dict and a plain parameter -/
+def gEsc : Graph := ⟨[
+  { gens := [(s "p", s "f.txt")] },
+  { args := [(s "d", .dict [s "a/b", s ".."] [.ref 0, .ref 0]), (s "x", .ref 0)], gens := [(s "q", s "g.txt")] }]⟩
+
+theorem gEsc_OKany : gEsc.OKany := OKany_of_okAnyB (by decide)
+/-- the two `_repaired` theorems say something on it: at least two generated paths, all inside the job directory, pairwise distinct. -/
+example : 2 ≤ (genpaths escapeKey gEsc 1).length := by decide
+example : ∀ e ∈ genpaths escapeKey gEsc 1, e.path.Inside := fun e he => genpath_inside_repaired gEsc gEsc_OKany 1 e he
+example : ∀ e1 ∈ genpaths escapeKey gEsc 1, ∀ e2 ∈ genpaths escapeKey gEsc 1, e1.path = e2.path → e1.node = e2.node ∧ e1.file = e2.file :=
+  fun e1 h1 e2 h2 h => genpath_injective_repaired gEsc gEsc_OKany 1 e1 e2 h1 h2 h
+
 end XpmVerif.C17
